@@ -122,7 +122,7 @@ pub fn check_ptrenc(enc: u8, twin: bool) {
 // ---- (c) binary search table == linear scan ----
 fn hdr_lookup(n: u64, twin: bool) {
     // header: version, eh_frame_ptr udata4, fde_count udata4, table udata4 (absolute)
-    let mut buf: [u8; 12 + 24] = kani::any();
+    let mut buf: [u8; 12 + 40] = kani::any();
     buf[0] = 1;
     buf[1] = 0x03;
     buf[2] = 0x03;
